@@ -33,6 +33,7 @@ type Spec struct {
 	Batch          int  `json:"batch"`                                // seed offset so that batches differ
 	Shared128First bool `json:"shared_secret_aes128_first,omitempty"` // the key list starts with an aes-128-gcm key of the SAME secret
 	EmptyID        bool `json:"empty_id,omitempty"`                   // the key's ID is the empty string
+	EmptySecret    bool `json:"empty_secret,omitempty"`               // the key's secret is the empty string (legal)
 	LateKey        int  `json:"late_key,omitempty"`                   // the handler is built around an empty (1) / aes-128-only (2) key list; the keys arrive afterwards through CipherList.Update (a reload)
 	Between        bool `json:"other_key_between,omitempty"`          // before every reflection the reflecting client IP makes a valid connection under the OTHER key (another cipher, another salt size)
 	RandFailAfter  int  `json:"rand_fail_after,omitempty"`            // the system's random source fails from its n-th read on (connections may then fail, but no salt may repeat)
@@ -55,6 +56,9 @@ func build(s Spec) *engine.Scenario {
 	if s.Shared128First {
 		// a secret nothing else in this process has used, so that its first use is the aes-128 key
 		secret = fmt.Sprintf("s@lt-128-first-%d", s.Cipher)
+	}
+	if s.EmptySecret {
+		secret = ""
 	}
 	keyID := "salt-key"
 	if s.EmptyID {
@@ -245,6 +249,8 @@ func specs(tier string) []Spec {
 		for _, cache := range []int{-1, 100} {
 			out = append(out, Spec{Cipher: c, Conns: 4, Cache: cache, Batch: 960 + c, EmptyID: true}, Spec{Cipher: c, Conns: 4, Cache: cache, Batch: 970 + c, Between: true})
 		}
+		// a key whose secret is the empty string
+		out = append(out, Spec{Cipher: c, Conns: 4, Cache: -1, Batch: 990 + c, EmptySecret: true})
 		// the keys reach a handler that was built without them (configuration reload)
 		for _, late := range []int{1, 2} {
 			out = append(out, Spec{Cipher: c, Conns: 4, Cache: []int{-1, 100}[late-1], Batch: 980 + c, LateKey: late})
